@@ -145,7 +145,6 @@ def judge(ck, tp, name, account=True):
 def run(ck):
     ck.assumptions += ["TLC 1.8.0, CommunityModules Json", "Prim: Sha256, EdVerify, EdPubFromSeed (own BigInteger implementation, RFC 8032 vectors), converters",
                        "Cells!InfoTable (cell hashes) and Boc!Parse as validated by C02 / C01",
-                       "amounts < 2^63 (tlb.Grams encodes through int64: a TL-B layer matter, C03)",
                        "fields of an internal message that the request does not choose (ihr_disabled, src, fees, created_lt/at) are left free",
                        "dictionary label forms and keys of a highload body are free (ascending keys < 2^15 = sending order)",
                        "CreateMessageBody beyond the version's limit is outside the statement (only sends must be refused)",
@@ -159,6 +158,7 @@ def run(ck):
     v5b_total = 0
     fixtures = 0
     nflips = 0
+    all_rejected = []
     for i, (tp, (rejected, v5b)) in enumerate(zip(traces, results)):
         v5b_total += v5b
         bad_lines = {ln for ln, _, _ in rejected}
@@ -184,16 +184,21 @@ def run(ck):
             if k == "Fixture":
                 raise Infra("a captured wallet message of the repository (%s) is not accepted by WalletMsg (%s): the transcription of the "
                             "format is wrong" % (e.get("src"), ",".join(clauses)))
-            if "harness" in clauses or "exp" in clauses or "quantifier" in clauses:
+            if {"harness", "exp", "quantifier", "spec:self"} & set(clauses):
                 raise Infra("harness / generator fault on %s line %d: %s" % (os.path.basename(tp), ln, ",".join(clauses)))
-            origin = ({"kind": "vector", "vector": vecs[e["vec"]], "seed": ck.seed} if "vec" in e else
-                      {"kind": "drive", "tier": ck.tier, "seed": ck.seed, "shard": e.get("oshard", 0), "shards": NSHARDS, "case": e.get("case"), "k": k})
-            for key in keys_of(e, clauses):
-                what = WHAT.get(key) or "%s event (%s, %d messages) fails clause(s) %s of WalletMsg_Trace" % (k, e.get("ver"), e.get("n", 0), ",".join(clauses))
-                if k == "Panic":
-                    what = "panic in %s: %s" % (e.get("where"), e.get("panic"))
-                ck.report(key, what + " [failing input: %s n=%s seqno=%s valid_until=%s]" % (e.get("ver"), e.get("n"), e.get("seqno"), e.get("vu")),
-                          dict(origin, clauses=clauses, event=slim(e)))
+            all_rejected.append((e.get("n", 0), len(json.dumps(e)), e, clauses))
+    # report the smallest failing input of every key first (it becomes the replay file)
+    for _, _, e, clauses in sorted(all_rejected, key=lambda t: t[:2]):
+        k = e.get("k")
+        origin = ({"kind": "vector", "vector": vecs[e["vec"]], "seed": ck.seed} if "vec" in e else
+                  {"kind": "drive", "tier": ck.tier, "seed": ck.seed, "shard": e.get("oshard", 0), "shards": NSHARDS, "case": e.get("case"), "k": k})
+        for key in keys_of(e, clauses):
+            what = WHAT.get(key) or "%s event (%s, %d messages) fails clause(s) %s of WalletMsg_Trace" % (k, e.get("ver"), e.get("n", 0), ",".join(clauses))
+            if k == "Panic":
+                what = "panic in %s: %s" % (e.get("where"), e.get("panic"))
+            ck.report(key, what + " [failing input: %s n=%s seqno=%s valid_until=%s via %s]" % (e.get("ver"), e.get("n"), e.get("seqno"), e.get("vu"),
+                                                                                       "CreateMessageBody" if k == "Body" else "RawSend"),
+                      dict(origin, clauses=clauses, event=slim(e)))
     # vacuity: every TLC case came back, every kind of event was recorded, every version has accepted events
     if vec_seen != set(range(len(vecs))):
         raise Infra("only %d of %d generated cases were replayed" % (len(vec_seen), len(vecs)))
@@ -209,6 +214,8 @@ def run(ck):
     if v5b_total:
         ck.notes.append("wallet.VerifySignature has no V5Beta branch: %d correctly signed V5Beta messages were answered with 'version not "
                         "supported' (MessageV5VerifySignature accepts them; left free by the specification)" % v5b_total)
+    v0 = next(v for v in vecs if v["exp"] == "refused")
+    ck.sample({"direction": "S->C", "generated_case": v0, "replayed_as": "Send event: RawSend returned an error and nothing reached SendMessage (judged by WalletMsg_Trace)"})
     canaries(ck, traces)
     ck.extra["bit_flips_judged"] = nflips
     return ck.finish(rule=RULE, distinct=len(distinct))
